@@ -82,6 +82,12 @@ CLAIMED = {
    note="Trusted: Lean kernel; planparse.py (an expression it cannot parse is reported, never skipped); the constructor conventions of the MATLAB runtime classes (static .m files are not executed: no MATLAB/Octave in the sandbox); C++ is tied by execution only (its template expressions are not parsed).",
    technique="Lean 4 proof (mutual structural induction) + translation validation of generated serializer expressions against the Lean emitter",
    design="§7 C14"),
+ "C13": dict(
+   engine="syntax",
+   text="Kernel-checked: in a Lean model of the front end's two type syntaxes (the shorthand AST participle hands to convertType/applyTypeTail, and the YAML nodes UnmarshalTypeYAML/UnmarshalTypeCases/Unmarshal{Vector,Array,Map,Union,Generic}YAML see) every shorthand, expanded or mixed spelling of a surface type - T? vs [null,T], !generic vs Name<...>, !vector/!array/!map vs * [] ->, dimensions: n vs [,], redundant parentheses - builds the same tree as every consumer sees it; primitive aliases resolve as documented and idempotently (over a table regenerated by executing resolveTypes of the current source). Tied to the code by parsing randomly spelled types with the real UnmarshalTypeYAML in-process (raw tree = model's tree; the harness's spellings satisfy the theorem's hypothesis; malformed nodes rejected by both). Artefact level (differential): respelled packages with non-documentation comments / blank lines are accepted together and give byte-identical C++, Python, MATLAB and JSON output; shuffled and re-split definitions (random packages and a directed package whose dependencies run through imported generics) give identical schemas, an importable Python package and identical re-serialized bytes; an injected rule violation is rejected under every spelling.",
+   note="Trusted: Lean kernel; the text->token->AST step of participle and the YAML library are not modelled (exercised by the correspondence only); generated C++ of reordered packages is compared through schemas/plans, not compiled; the topological sort itself is exercised, not proved.",
+   technique="Lean 4 proof (mutual structural induction over the surface type) + in-process correspondence with UnmarshalTypeYAML + artefact differential",
+   design="§7 C13"),
 }
 NOT_YET = "machinery for this property is not built yet in this round (see DESIGN.md §10 build order)"
 checks, na = [], []
